@@ -182,6 +182,7 @@ func (wf *Workflow) IncConcurrentTasks(slots int) {
 		verifPoint("slots.deposited")
 		Debug.Println("Increased concurrent tasks")
 	}
+	verifPoint("slots.before_unlock")
 	wf.concurrentTasksMx.Unlock()
 }
 
